@@ -24,6 +24,8 @@ RULES = {
     'C07.c': 'SetPrimary: on a non-primary node store Secondary and send `primary <name>` to the supervisor; on a primary start a new election',
     'C07.d': 'Join (primary or eligible) and Leave start a new election; the TCP disconnect path sends leave for a Primary peer, '
              'replicate-leave for the other roles',
+    'C07.f': 'the loop that waits for the candidate\'s acknowledgements re-tests is_eligible() in every iteration, and that test '
+             'dominates the timeout claim (election_win) inside the loop',
     'C07.e': 'each wait loop of the election has an exit controlled by a counter incremented in the loop and compared with the '
              'election timeout; the single-member shortcut wins at once',
 }
@@ -55,6 +57,8 @@ def role_of_root(m, b, r):
         v = c.get('v')
         if c.get('variant'):
             names.add(c['variant'])
+        elif isinstance(c.get('item'), str) and c['item'].startswith(ROLE + '::'):
+            names.add(c['item'][len(ROLE) + 2:].split('::')[0])      # ClusterRole::X::{constant#0}: the discriminant expression of X
         elif isinstance(v, int):
             names.add(m.prog.variant_of_discr(ROLE, v) or '?%s' % v)
     elif r[0] == 'discr':
@@ -70,7 +74,7 @@ def role_of_root(m, b, r):
         for k in ('a', 'b'):
             if k in rv:
                 for r2 in origins(b, rv[k]):
-                    if r2[0] != 'const' or const_val(r2) != 0:
+                    if r2[0] != 'const' or const_val(r2) != 0 or core.const_of(r2).get('item'):
                         names |= role_of_root(m, b, r2)
     else:
         names.add('?')
@@ -175,7 +179,17 @@ def run(ck, m):
     # ---- (c) / (d) ---------------------------------------------------------------------
     newel = [b for b in P.user_bodies() if b.kind == 'fn' and b.locals[0] == '()' and
              any(callee(t) == sb.id for _, t in b.calls()) and role_store(m, b)]
-    newel_ids = {b.id for b in newel} | {sb.id}
+    # a node that is told to contend from the dispatcher must step down first: start_election announces a win only from
+    # StartingUp (election_win / the supervisor's set-primary run for an eligible node), so a Primary that contends
+    # without stepping down never tells the others who won
+    stepping = []
+    for b in newel:
+        scalls = [bi for bi, t in b.calls() if callee(t) == sb.id]
+        downs = [bi for bi, names in role_store(m, b) if names == {'StartingUp'}]
+        if scalls and downs and all(any(b.dominates(x, s_) for x in downs) for s_ in scalls):
+            stepping.append(b)
+    newel_ids = {b.id for b in stepping}
+    ck.floor('C07.c', len(stepping), 1, 'functions that store StartingUp and then run the election')
     d, sw = m.dispatcher()
 
     def arm_closure(variant):
@@ -249,6 +263,36 @@ def run(ck, m):
         ok, why = loop_bounded(sb, h, body)
         ck.ob('C07.e', short(sb.id), 'wait-loop-%d' % n, ok, why, sb.loc(h))
     ck.floor('C07.e', n, 2, 'wait loops in the election')
+    # ---- (f) the acknowledgement wait re-tests eligibility --------------------------------------
+    n_ack = 0
+    for h, body in loops:
+        acks = [x for x in body if sb.term(x)['k'] == 'call' and callee(sb.term(x)).endswith('is_full_acknowledged') and not is_log(sb.term(x))]
+        if not acks:
+            continue
+        n_ack += 1
+        # every claim that can follow the wait (the timeout claim inside the loop, the claim after it) must be dominated by the
+        # eligible edge of an is_eligible() test taken after the loop head, i.e. re-evaluated while / after waiting
+        wins = [x for x in sb.reachable() if sb.term(x)['k'] == 'call' and callee(sb.term(x)) == wb.id and sb.dominates(h, x)]
+        tests = [x for x in sb.reachable() if sb.term(x)['k'] == 'call' and callee(sb.term(x)).endswith('bo::Databases::is_eligible')
+                 and sb.dominates(h, x)]
+        unguarded = []
+        for w in wins:
+            g = False
+            for x in tests:
+                for (s2, tt, ft) in bool_switches(sb, x):
+                    if sb.dominates(tt, w) and not sb.dominates(ft, w) and w not in sb.reach_from([ft], include_start=True):
+                        g = True
+            if not g:
+                unguarded.append(w)
+        guarded = not unguarded
+        wins = unguarded
+        okf = guarded or not wins
+        ck.ob('C07.f', short(sb.id), 'ack-wait-retests-eligibility', okf,
+              'every iteration of the acknowledgement wait re-tests is_eligible() before it can time out into election_win' if okf else
+              'the acknowledgement wait can time out into election_win (%s) without re-testing eligibility in the loop: a node that '
+              'already yielded to an older live candidate (role Secondary) still claims the primary role when an ack can never arrive'
+              % [sb.loc(w) for w in wins], sb.loc(h))
+    ck.floor('C07.f', n_ack, 1, 'wait loops on is_full_acknowledged')
     # single member shortcut: count_cluster_members() <= 1 -> election_win + return
     okm = False
     for bi, t in sb.calls():
